@@ -26,6 +26,7 @@ import (
 	"github.com/lindb/lindb/sql/stmt"
 
 	"lindbverif/node"
+	"lindbverif/qh"
 	"lindbverif/vh"
 )
 
@@ -392,7 +393,7 @@ func randomScript(r *vh.Rand) []stepJ {
 func main() {
 	cfg := vh.ParseFlags()
 	r := vh.NewRand(cfg.Seed)
-	out := vh.NewOut(cfg.Out, "From Coq Require Import List ZArith Bool.\nImport ListNotations.\nFrom LinDBV.C11 Require Import Model Check.\nOpen Scope Z_scope.\n")
+	out := vh.NewOut(cfg.Out, "From Coq Require Import List ZArith Bool.\nImport ListNotations.\nFrom LinDBV.C11 Require Import Model Check.\nFrom LinDBV.C12 Require Import Model Check.\nFrom LinDBV.C11 Require Import QCheck.\nOpen Scope Z_scope.\n")
 	out.ShardSize = 10
 	root, err := os.MkdirTemp("", "verif-c11-")
 	if err != nil {
@@ -419,6 +420,12 @@ func main() {
 	for i := 0; i < cfg.N; i++ {
 		runHistory(out, root, 4+i, "random", randomScript(r))
 	}
+	// the query level: statements answered by the real query path on one storage node
+	nq := cfg.N / 4
+	if nq < 3 {
+		nq = 3
+	}
+	qh.C11QueryWorlds(out, root, cfg.Seed, nq)
 	out.Notes = append(out.Notes, "only the last step's read is compared per key (the reads after the earlier steps exercise the load path on every intermediate state and fail the case on an error)")
 	out.Finish()
 }
